@@ -24,8 +24,11 @@ type Engine struct{}
 func (Engine) Name() string { return "procsim" }
 
 func (Engine) Scenarios(property string) []string {
-	if property == "C28" {
+	switch property {
+	case "C28":
 		return []string{"lock"}
+	case "C35":
+		return []string{"agentstream"}
 	}
 	return nil
 }
@@ -33,6 +36,10 @@ func (Engine) Scenarios(property string) []string {
 func (Engine) Generate(property, scenario string, seed uint64, tier string) *simkit.Plan {
 	p := &simkit.Plan{Engine: "procsim", Scenario: scenario, Property: property, Seed: seed, Cfg: map[string]int64{}}
 	r := simkit.NewRand(seed, 1)
+	if scenario == "agentstream" {
+		genAgentStream(p, r, tier)
+		return p
+	}
 	n := r.Range(2, 5)
 	p.Cfg["processes"] = int64(n)
 	ops := r.Range(4, 30)
@@ -70,6 +77,9 @@ func (p *proc) send(cmd string) (string, error) {
 }
 
 func (Engine) Execute(t *testing.T, plan *simkit.Plan) *simkit.Result {
+	if plan.Scenario == "agentstream" {
+		return execAgentStream(plan)
+	}
 	helper := os.Getenv("VERIF_HELPER")
 	res := simkit.RunPlain(plan, func(s *simkit.Sim) {
 		if helper == "" {
